@@ -96,7 +96,7 @@ PROPS = {
         "assumptions": TRUST,
     },
     "C03": {
-        "rules": ["PENDING", "EOS", "MINHDR", "PANIC"],
+        "rules": ["PENDING", "EOS", "MINHDR", "REPARSE", "BUFFERED", "PANIC"],
         "explanation": "Necessary structural clauses of framing on MIR: forward dataflow over RxPacketStream::poll_next proving that Poll::Pending is returned only after an inner poll returned Pending for the same context; "
                        "every Ready(None) control dependent on the transport's own result or a malformed length (read error / 0 bytes into a provably non-empty destination); the gate to the length parse is size >= 2; "
                        "index and length arithmetic of the reassembly machine discharged site by site in both arithmetic modes (PANIC ledger).",
@@ -130,7 +130,7 @@ PROPS = {
         "filters": {"LEGAL": r"LEGAL:tx:", "MANDATORY": r"Tx|floor"},
     },
     "C02": {
-        "rules": ["LEGAL", "IDS", "REASONS", "DEFAULTS", "MANDATORY", "SHORTFORM", "MULTI", "ACCESSOR", "PUBID", "BITS"],
+        "rules": ["LEGAL", "IDS", "REASONS", "DEFAULTS", "MANDATORY", "SHORTFORM", "SHORTFORM-EXACT", "MULTI", "ACCESSOR", "PUBID", "BITS", "REPARSE"],
         "explanation": "Decoder structure on MIR: accepted property set per receive decoder = the standard's legal set (order-free property loop), wire type per property identifier, reason enums = TryFrom<u8> maps = the standard's code sets, "
                        "defaults of absent properties, mandatory parts of inbound packets, shortened forms (tail decodes do not dominate every success exit), multiplicity (collections for repeatable properties), "
                        "accessors read exactly the field they are named after, PUBLISH header masks / shifts, packet identifier iff QoS > 0.",
